@@ -3,7 +3,8 @@ import random
 import string
 
 TPL = {"orig:P": "P0 {x:name}|{y}", "orig:C": "C0 {y:line}|{x}", "orig:N": "N0 {x}|{y:name}", "o1": "O1 {x:name} at {y:line}", "o2": "O2 {x}",
-       "kw": "KW {x:name}!", "kwn": "KN {x:>{w}}|{y:line}|{x:<{w}}."}
+       "kw": "KW {x:name}!", "kwn": "KN {x:>{w}}|{y:line}|{x:<{w}}.",
+       "kwc": "KC {x:shout}|{y:name}"}
 TTPL = {"o1": "O1 {name:name} at {location.line:line}", "o2": "O2 {name}", "kw": "KW {name:name}!"}
 TITLE = {"orig:P": "Title P", "orig:C": "Title C", "orig:N": None, "o1": "Title one", "o2": "Title two"}
 
@@ -38,7 +39,15 @@ class World:
 
             def line(self, line_number):
                 return "[l:%s]" % line_number
-        self.F1, self.F2 = Formatter, F2
+
+        class F3(Formatter):
+            """a formatter that ADDS a format of its own to the inherited list"""
+            available = Formatter.available + ["shout"]
+
+            def shout(self, text):
+                return str(text).upper() + "!"
+        self.F1, self.F2, self.F3 = Formatter, F2, F3
+        self.FMT = {"F1": Formatter, "F2": F2, "F3": F3}
         self.objs = []
 
     def cls(self, c):
@@ -87,7 +96,7 @@ class World:
         through the formatter for its declared format spec."""
         if m["k"] == "explicit":
             return "explicit message %d" % i
-        fmt = (self.F1 if m["f"] == "F1" else self.F2)(self.report)
+        fmt = self.FMT[m["f"]](self.report)
         tpl = self.tpl_value(c, m["t"])
         fields = dict(self.fields(c))
         if c == "T":
@@ -125,6 +134,8 @@ class World:
                     kw["message_template"] = (TTPL if c == "T" else TPL)["kw"]
                 elif mk == "kwnested":
                     kw["message_template"] = TPL["kwn"]
+                elif mk == "kwcustom":
+                    kw["message_template"] = TPL["kwc"]
                 if a["delay"]:
                     kw["delay_condition"] = True
                 if a.get("par") == "str":
@@ -165,7 +176,7 @@ class World:
                 from pedal.core.commands import contextualize_report
                 contextualize_report("a = 0", clear=(op == "context_clear"), report=r)
             elif op == "setfmt":
-                r.set_formatter((self.F1 if a["v"] == "F1" else self.F2)(r))
+                r.set_formatter(self.FMT[a["v"]](r))
             else:
                 raise ValueError(op)
         except Exception as e:   # a public call that must not raise did
@@ -184,7 +195,7 @@ class World:
                 "ignored": [ids.get(id(o), -1) for o in r.ignored_feedback],
                 "objs": objs,
                 "attr": {c: {a: self.attr_token(c, a) for a in ("template", "title")} for c in "PCNIT"},
-                "raised": raised, "fmt": "F1" if type(r.format) is self.F1 else "F2"}
+                "raised": raised, "fmt": [k for k, c in self.FMT.items() if type(r.format) is c][0]}
 
 
 def compare(w, proj, exp, classes_of):
